@@ -79,53 +79,69 @@ Proof.
     intros Hc. apply H in Hc. discriminate.
 Qed.
 
-(* The unrestricted statement
-     evaluate text gold u
-     = evaluate (filter nonblank text) (filter nonblank gold) (option_map (filter nonblank) u)
-   is FALSE when u = Some us with us <> [] but every unit line blank: the left
-   side takes the `Some us0` branch (and calls compute_class_labels with an
-   empty units list) while the right side sees `Some []` and skips it. *)
-Example evaluate_blank_lines_ignored_counterexample_1 :
-  evaluate [] [] (Some [[]])
-  <> evaluate (filter nonblank []) (filter nonblank []) (option_map (filter nonblank) (Some [[]])).
-Proof. vm_compute. discriminate. Qed.
-
-Example evaluate_blank_lines_ignored_counterexample_2 :
-  evaluate [[97%N]] [[97%N]] (Some [[32%N]])
-  <> evaluate (filter nonblank [[97%N]]) (filter nonblank [[97%N]])
-              (option_map (filter nonblank) (Some [[32%N]])).
-Proof. vm_compute. discriminate. Qed.
-
-Theorem evaluate_blank_lines_ignored_partial : forall text gold u,
-  (u = None \/ exists us, u = Some us /\ (filter nonblank us <> [] \/ us = [])) ->
+(* Since fix f716c25 (`if units is not None:`) the units text is treated like
+   the two other texts: blank lines are dropped from all three, whatever they
+   are.  (Before the fix the statement was false for a non-empty units text
+   made of blank lines only.) *)
+Theorem evaluate_blank_lines_ignored : forall text gold u,
   evaluate text gold u
   = evaluate (filter nonblank text) (filter nonblank gold) (option_map (filter nonblank) u).
 Proof.
-  intros text gold u Hu.
+  intros text gold u.
   unfold evaluate. rewrite !read_data_filter, !filter_idem.
   destruct (negb (Nat.eqb _ _)); [reflexivity|].
   destruct (negb (forallb _ _)); [reflexivity|].
-  destruct Hu as [->|[us [-> Hus]]]; [reflexivity|].
-  cbn [option_map].
-  destruct Hus as [Hne| ->]; [|reflexivity].
-  pose proof (filter_idem nonblank us) as Hid.
-  destruct us as [|u0 us]; [reflexivity|].
-  remember (filter nonblank (u0 :: us)) as F eqn:EF.
-  destruct F as [|f0 F]; [contradiction|].
-  rewrite Hid. reflexivity.
+  destruct u as [us|]; [|reflexivity].
+  cbn [option_map]. rewrite filter_idem. reflexivity.
 Qed.
 
-(* the two unconditional special cases *)
+(* the former counterexample inputs now satisfy the equation *)
+Example evaluate_blank_lines_ignored_former_counterexample_1 :
+  evaluate [] [] (Some [[]])
+  = evaluate (filter nonblank []) (filter nonblank []) (option_map (filter nonblank) (Some [[]])).
+Proof. vm_compute. reflexivity. Qed.
+
+Example evaluate_blank_lines_ignored_former_counterexample_2 :
+  evaluate [[97%N]] [[97%N]] (Some [[32%N]])
+  = evaluate (filter nonblank [[97%N]]) (filter nonblank [[97%N]])
+             (option_map (filter nonblank) (Some [[32%N]])).
+Proof. vm_compute. reflexivity. Qed.
+
+Corollary evaluate_blank_lines_ignored_partial : forall text gold u,
+  (u = None \/ exists us, u = Some us /\ (filter nonblank us <> [] \/ us = [])) ->
+  evaluate text gold u
+  = evaluate (filter nonblank text) (filter nonblank gold) (option_map (filter nonblank) u).
+Proof. intros text gold u _. apply evaluate_blank_lines_ignored. Qed.
+
+(* the two special cases *)
 Corollary evaluate_blank_lines_ignored_None : forall text gold,
   evaluate text gold None = evaluate (filter nonblank text) (filter nonblank gold) None.
-Proof. intros. apply (evaluate_blank_lines_ignored_partial text gold None). left; reflexivity. Qed.
+Proof. intros. exact (evaluate_blank_lines_ignored text gold None). Qed.
 
 Corollary evaluate_blank_lines_ignored_Some_nil : forall text gold,
   evaluate text gold (Some []) = evaluate (filter nonblank text) (filter nonblank gold) (Some []).
+Proof. intros. exact (evaluate_blank_lines_ignored text gold (Some [])). Qed.
+
+(* A units text whose number of non-blank lines differs from the text's is
+   refused -- also the empty one (the repaired defect: `if units:` used to skip
+   an empty units text silently). *)
+Theorem evaluate_units_count_mismatch : forall text gold us,
+  length (filter nonblank us) <> length (filter nonblank text) ->
+  evaluate text gold (Some us) = Raise ValueError.
 Proof.
-  intros. apply (evaluate_blank_lines_ignored_partial text gold (Some [])).
-  right. exists []. split; [reflexivity|right; reflexivity].
+  intros text gold us Hne. unfold evaluate.
+  destruct (negb (Nat.eqb _ _)); [reflexivity|].
+  destruct (negb (forallb _ _)); [reflexivity|].
+  unfold compute_class_labels at 1.
+  destruct (Nat.eqb_spec (length (filter nonblank text)) (length (filter nonblank us))) as [E|_];
+    [exfalso; apply Hne; symmetry; exact E|].
+  reflexivity.
 Qed.
+
+(* "a b" / "ab" / no unit line *)
+Example evaluate_empty_units_refused :
+  evaluate [[97%N; 32%N; 98%N]] [[97%N; 98%N]] (Some []) = Raise ValueError.
+Proof. vm_compute. reflexivity. Qed.
 
 Lemma word_len_raises : forall fuel word w units index e,
   word_len fuel word w units index = Raise e -> e = IndexError \/ e = OutOfFuel.
@@ -176,7 +192,7 @@ Proof.
   intros text gold u e H. unfold evaluate in H.
   destruct (negb (Nat.eqb _ _)); [congruence|].
   destruct (negb (forallb _ _)); [congruence|].
-  destruct u as [[|u0 us]|]; try discriminate.
+  destruct u as [us|]; [|discriminate].
   destruct (compute_class_labels (filter nonblank text) _) as [lt|e1] eqn:E1; cbn [bind] in H.
   - destruct (compute_class_labels (filter nonblank gold) _) as [lg|e2] eqn:E2; cbn [bind] in H;
       [discriminate|].
